@@ -359,7 +359,138 @@ def run_c20(ctx):
     ctx.pmap(drivers.drv_bridge, _stamp(cases, "drv_bridge"))
     ctx.validate()
 
+# ------------------------------------------------------------------------------------------- C13
+def run_c13(ctx):
+    q = ctx.tier == "quick"
+    inv = ["ShadowAlg", "PrioDense", "RanksAll", "Exact"]
+    cases = []
+    for name, u in (("Prio_2x3", {"NRows": 2, "NColsC": 3, "Vals": S([-2, -1, 0, 1] if q else range(-2, 3))}),
+                    ("Prio_3x2", {"NRows": 3, "NColsC": 2, "Vals": S([-1, 0, 1, 2] if q else [-2, -1, 0, 1, 2])})):
+        r = ctx.model_check("PuanPrio", u, invariants=inv, dump=True, name=name)
+        xs = [x for x in ctx.dump_values(r, "X") if x]
+        for k, x in enumerate(xs):
+            cases.append({"x": x, "kind": "2d0", "src": "spec"})
+            cases.append({"x": x, "kind": "2d1", "src": "spec"})
+            if len(x) == 1: cases.append({"x": x[0], "kind": "flat", "src": "spec"})
+            if k % 7 == 0 and k + 2 < len(xs) and len(xs[k + 1]) == len(x) and len(xs[k + 2]) == len(x):
+                cases.append({"x": [x, xs[k + 1], xs[k + 2]], "kind": "3d0", "src": "spec"})
+    rng = ctx.rng
+    def arr(nr, nc, lo=-5, hi=5, pz=0.4):
+        return [[0 if rng.random() < pz else rng.randint(lo, hi) for _ in range(nc)] for _ in range(nr)]
+    for k in range(1500 if q else 20000):
+        nr, nc = rng.randint(1, 5), rng.randint(1, 6)
+        x = arr(nr, nc, pz=rng.choice([0.2, 0.5, 0.7]))
+        if nr >= 3 and any(all(v == 0 for v in row) for row in x[1:-1]): ctx.region("empty_middle_row")
+        if any(sum(row) == 0 and any(row) for row in x): ctx.region("cancelling_row")
+        if nr >= 3: ctx.region("rows>=3")
+        kind = rng.choice(["2d0", "2d1", "2d0", "flat", "3d0"])
+        if kind == "flat":
+            cases.append({"x": x[0] if k % 2 else x, "kind": "flat", "src": "random"})
+        elif kind == "3d0":
+            ctx.region("3d")
+            cases.append({"x": [x] + [arr(nr, nc) for _ in range(rng.randint(1, 2))], "kind": "3d0", "src": "random"})
+        else:
+            cases.append({"x": x, "kind": kind, "src": "random"})
+    for f in ("empty_middle_row", "cancelling_row", "rows>=3", "3d"):
+        if not ctx.regions.get(f): raise Machinery("random arrays did not reach region " + f)
+    ctx.pmap(drivers.drv_compress, _stamp(cases, "drv_compress"))
+    ctx.validate()
+
+# ------------------------------------------------------------------------------------------- C14 / C15
+CFG_RULES = ["ccAny", "ccXor", "All", "Any", "AtMost", "Imply"]
+def prios_lists(leaf_ids, rng, n=4):
+    ids = sorted(leaf_ids)
+    out = [[{}]]
+    if ids:
+        a = ids[0]; b = ids[-1]; c = ids[len(ids) // 2]
+        out += [[{a: 1}], [{b: -1}], [{a: 1, b: 2}, {c: -1}], [{a: -2, b: 1}], [{a: 1, b: 1, c: 1}], [{a: 2, c: -3}, {}, {b: 1}]]
+    for _ in range(n):
+        k = rng.randint(1, min(3, len(ids))) if ids else 0
+        out.append([{i: rng.choice([-3, -2, -1, 1, 2, 3]) for i in rng.sample(ids, k)} for _ in range(rng.randint(1, 3))])
+    return out
+
+def cfg_cases(ctx, inv, quick_prios=3):
+    q = ctx.tier == "quick"
+    cases = []
+    u = universe(ctx.tier, ["ccAny", "ccXor", "Cfg"] + ([] if q else ["Imply", "All"]), leaves=[LEAF("a"), LEAF("b"), LEAF("c")], values=[1], signs=(0,),
+                 ids=("gen", "exp") if not q else ("exp",), comp=2 if q else 3, kids=3 if q else 2)
+    r = ctx.model_check("PuanBuild", u, invariants=inv, dump=True, name="Build_cfg")
+    cs = [c for c in spec_cases(ctx, r) if c["recipe"]["c"] == "Cfg"]
+    for c in cs:
+        c["prios_list"] = prios_lists(B_leaves(c["recipe"]), ctx.rng, n=1)
+    cases += cs
+    g = gen.Gen(ctx.rng, classes=CFG_RULES, ints=False, max_kids=3, depth=2, documented=True, max_box=64)
+    n = 0
+    while n < (120 if q else 1500):
+        rules = [g.recipe() for _ in range(ctx.rng.randint(1, 3))]
+        ids = [x["id"] for x in rules if x["id"]]
+        if len(ids) != len(set(ids)): continue
+        rr = {"c": "Cfg", "a": rules, "id": "cfg" if n % 2 else "", "v": 0, "s": 0, "d": ""}
+        if len(_all_ids(rr)) > 11: continue
+        for f in gen.features(rr): ctx.region(f)
+        cases.append({"recipe": rr, "src": "random", "prios_list": prios_lists(B_leaves(rr), ctx.rng, n=2)})
+        n += 1
+    return cases
+
+def B_leaves(r):
+    from . import build as B
+    return list(B.recipe_leaves(r))
+
+def _all_ids(r, acc=None):
+    acc = set() if acc is None else acc
+    if r["c"] == "leaf": acc.add(r["id"])
+    else:
+        acc.add(id(r) if not r["id"] else r["id"])
+        for x in r["a"]: _all_ids(x, acc)
+        if r["c"] in ("Xor", "ccXor", "XNor"): acc.update({("x", id(r), 1), ("x", id(r), 2)})
+        if r["c"] in ("ccAny",): acc.add(("x", id(r), 3))
+        if r["c"] == "Imply": acc.update({("x", id(r), 4), ("x", id(r), 5), ("x", id(r), 6)})
+    return acc
+
+def run_c14(ctx):
+    cases = cfg_cases(ctx, ["C14"])
+    for k, c in enumerate(cases):
+        c["solvers"] = ["capture"] if k % 4 else ["exact"]
+        c["leaf_opts"] = [False]
+    ctx.pmap(drivers.drv_select, _stamp(cases, "drv_select"))
+    ctx.validate()
+
+def run_c15(ctx):
+    q = ctx.tier == "quick"
+    cases = cfg_cases(ctx, ["C15"])
+    modes = ["capture", "exact", "none", "raise", "mixed"]
+    for k, c in enumerate(cases):
+        c["solvers"] = [modes[k % 5], modes[(k + 2) % 5]]
+        c["prios_list"] = c["prios_list"][k % 3::3] + c["prios_list"][3:4]
+    ctx.pmap(drivers.drv_select, _stamp(cases, "drv_select"))
+    # solve() on plain models with custom solvers
+    u = universe(ctx.tier, ["AtLeast", "Any", "All", "Xor", "Imply"], leaves=[LEAF("a"), LEAF("b"), LEAF("t", -1, 2)], values=[1, 2], signs=(0, -1),
+                 ids=("gen", "exp"), comp=2, kids=2)
+    r = ctx.model_check("PuanBuild", u, invariants=["C01"], dump=True, name="Build_solve")
+    sc = spec_cases(ctx, r)
+    sc += random_cases(ctx, 150 if q else 2000, ["neg_lower_leaf", "explicit_id", "generated_id"], max_box=32, max_kids=3, depth=2)
+    for c in sc:
+        ids = B_leaves(c["recipe"])
+        comp_ids = sorted(_explicit(c["recipe"]))
+        objs = [[{}], [{ids[0]: 1}], [{ids[-1]: -2, ids[0]: 3}, {ids[0]: -1}]]
+        if comp_ids: objs.append([{comp_ids[0]: 2, ids[0]: 1}])
+        k = len(objs) + sum(map(ord, "".join(map(str, ids))))
+        c["objectives_list"] = [objs[k % len(objs)], objs[(k + 1) % len(objs)]]
+        c["solvers"] = [["capture", "exact", "none", "mixed"][k % 4], ["exact", "capture"][k % 2]]
+    ctx.pmap(drivers.drv_solve, _stamp(sc, "drv_solve"))
+    ctx.validate()
+
+def _explicit(r, acc=None):
+    acc = set() if acc is None else acc
+    if r["c"] != "leaf":
+        if r["id"]: acc.add(r["id"])
+        for x in r["a"]: _explicit(x, acc)
+    return acc
+
 PROPS = {
+    "C13": {"run": run_c13, "clauses": {m + ":" + c for m in drivers.METHODS for c in ("shape", "exact", "prio_dense", "rank_dense", "zeros_signs", "ties", "order", "dominance", "unknown_method")} | {"no_exception"}},
+    "C14": {"run": run_c14, "clauses": {"ranks", "opt_same", "poly_is_own", "objective_count", "no_exception"}},
+    "C15": {"run": run_c15, "clauses": {"poly_is_own", "objective_count", "objective_by_id", "ids_aligned", "optimal", "model_true", "raises_infeasible", "no_exception"}},
     "C11": {"run": run_c11, "clauses": {"shape", "rows_implied", "cols_forced", "projection", "labels", "loop_inv", "reduce_cols_fn", "reduce_rows_fn", "no_exception"}},
     "C12": {"run": run_c12, "clauses": {"shape", "contain", "no_widen", "contra_only_if_empty", "rowb_exact", "colb", "ncomb", "no_exception"}},
     "C19": {"run": run_c19, "clauses": {"sat_value", "sep_value", "rowsep_value", "no_exception"}},
@@ -412,9 +543,10 @@ def finish(ctx):
         cl = sorted({c for v in other.values() for c in v})
         print("NOTE %d events failed clauses of other properties (%s); not an alarm for %s" % (len(other), ",".join(cl), ctx.pid))
     write_evidence(ctx, mine, outside)
-    print("%s %s: p1_states=%d events=%d accepted=%d violations=%d outside_domain=%d wall=%.1fs" % (
+    print("%s %s: p1_states=%d events=%d accepted=%d violations=%d outside_domain=%d wall=%.1fs (p1 %.0fs, p2 %.0fs, p3 %.0fs)" % (
         ctx.pid, ctx.tier, sum(x["distinct"] for x in ctx.p1), len(ctx.events),
-        len(ctx.events) - len(ctx.rejects) - outside, len(mine), outside, time.time() - ctx.t0))
+        len(ctx.events) - len(ctx.rejects) - outside, len(mine), outside, time.time() - ctx.t0,
+        sum(x["wall_s"] for x in ctx.p1), getattr(ctx, "p2_wall", 0.0), ctx.p3_wall))
     return 1 if mine else 0
 
 def _sample(ev):
